@@ -381,6 +381,10 @@ struct EvalCase {
     flat: Option<String>,
     /// Error / Fatal diagnostics are expected (ill-formed character references): do not treat them as a finding
     any_diag: bool,
+    /// C07: additionally change ONE top-level field at a time and apply only that field's binding-map updaters
+    bmap1: bool,
+    /// replayed witness of that phase: the changed field and its new value
+    alts: Vec<(String, J)>,
 }
 #[derive(Clone)]
 enum FileSrc { Text(String), Rep(String, usize) }
@@ -429,7 +433,7 @@ fn ev(family: &'static str, src: String, checks: Vec<(&str, String, bool)>, vars
     EvalCase {
         family, path: "a".into(), src, name: String::new(),
         checks: checks.into_iter().map(|(s, e, q)| (s.to_string(), e, q)).collect(),
-        guards: vec![], vars, pool, pick, flat: None, any_diag: false,
+        guards: vec![], vars, pool, pick, flat: None, any_diag: false, bmap1: family == "bmap", alts: vec![],
     }
 }
 
@@ -500,7 +504,18 @@ fn family_pos(out: &mut Vec<Case>) {
             ("r:v", r.clone(), false), ("r:w", format!("'p' + $str({}) + 'q'", r), false), ("d:k", r.clone(), false), ("m:k", r.clone(), false),
             ("c", r.clone(), false), ("y", r.clone(), false), ("i", r.clone(), false), ("t", texts, true),
         ];
-        out.push(Case::Eval(ev("pos", tpl, checks, vars, pool, pick)));
+        out.push(Case::Eval(ev("pos", tpl, checks, vars.clone(), pool.clone(), pick.clone())));
+        // C07: the same positions without the wx:if user (a field read by a structural attribute has no binding-map
+        // entry at all); here every field keeps its entry, and the single-field phase of the harness applies
+        let tpl = format!(
+            "<div {} w=\"p{{{{ {} }}}}q\" {} {} {} {} {}>{{{{ {} }}}}</div>x{{{{ {} }}}}y",
+            attr("v", &s), s, attr("data-k", &s), attr("mark:k", &s), attr("class", &s), attr("style", &s), attr("id", &s), s, s
+        );
+        let checks = vec![
+            ("r:v", r.clone(), false), ("r:w", format!("'p' + $str({}) + 'q'", r), false), ("d:k", r.clone(), false), ("m:k", r.clone(), false),
+            ("c", r.clone(), false), ("y", r.clone(), false), ("i", r.clone(), false), ("t", format!("[$str({r}), 'x' + $str({r}) + 'y']", r = r), true),
+        ];
+        out.push(Case::Eval(ev("bmap", tpl, checks, vars, pool, pick)));
     }
 }
 const NUMBERS: &[&str] = &[
@@ -1205,12 +1220,14 @@ fn pick_json(p: &Pick) -> J {
 }
 fn checks_json(c: &EvalCase) -> J { J::Arr(c.checks.iter().map(|(s, e, q)| J::Arr(vec![js(s), js(e), J::Bool(*q)])).collect()) }
 /// witness encoding of an eval case with ONE environment
-fn encode_eval(c: &EvalCase, tuple: &[usize]) -> String {
+fn encode_eval(c: &EvalCase, tuple: &[usize]) -> String { encode_eval_alt(c, tuple, None) }
+fn encode_eval_alt(c: &EvalCase, tuple: &[usize], alt: Option<(String, J)>) -> String {
     let env = J::Obj(c.vars.iter().zip(tuple).map(|(v, i)| (v.clone(), c.pool[*i].clone())).collect());
     let mut o = vec![("k", js("eval")), ("path", js(&c.path)), ("src", js(&c.src)), ("checks", checks_json(c)), ("env", env)];
     if !c.name.is_empty() { o.push(("name", js(&c.name))); }
     if !c.guards.is_empty() { o.push(("guards", J::Arr(c.guards.iter().map(|g| js(g)).collect()))); }
     if c.any_diag { o.push(("anydiag", J::Bool(true))); }
+    if let Some((f, v)) = alt { o.push(("alts", J::Obj(vec![(f, v)]))); } else if !c.alts.is_empty() { o.push(("alts", J::Obj(c.alts.clone()))); }
     jo(o).text()
 }
 fn encode_parse(c: &ParseCase) -> String {
@@ -1238,6 +1255,8 @@ fn decode_input(input: &str) -> Option<Case> {
                 pick: Pick::Tuples(vec![(0..env.len()).collect()]),
                 flat: None,
                 any_diag: j.get("anydiag").map(|d| d.truthy()).unwrap_or(false),
+                bmap1: j.get("alts").is_some(),
+                alts: if let Some(J::Obj(o)) = j.get("alts") { o.clone() } else { vec![] },
             }))
         }
         "parse" => Some(Case::Parse(ParseCase {
@@ -1289,6 +1308,8 @@ fn compile(id: usize, case: &Case, seen: &mut std::collections::HashSet<String>)
                 ("checks", checks_json(c)), ("guards", J::Arr(c.guards.iter().map(|g| js(g)).collect())),
             ];
             if let Some(f) = &c.flat { o.push(("flat", js(f))); }
+            if c.bmap1 { o.push(("bmap1", J::Bool(true))); }
+            if !c.alts.is_empty() { o.push(("alts", J::Obj(c.alts.clone()))); }
             let body = jo(o).text();
             // the two parenthesisations of a tree usually compile to the same code: execute it once
             if !seen.insert(body.clone()) { return Compiled::Dup; }
@@ -1356,10 +1377,16 @@ fn judge(case: &Case, r: &J) -> (Option<Outcome>, u64) {
             if let Some(m) = r.get("mismatch").filter(|m| m.truthy()) {
                 let tuple: Vec<usize> = m.get("tuple").map(|t| t.arr().iter().map(|x| x.num() as usize).collect()).unwrap_or_default();
                 let g = |k: &str| m.get(k).and_then(|x| x.str()).unwrap_or("?").to_string();
+                // single-field phase: the witness names the changed field and its new value
+                let alt = m.get("altField").and_then(|f| f.str()).map(|f| {
+                    let v = if let Some(a) = c.alts.iter().find(|(k, _)| k == f) { a.1.clone() } else { c.pool[m.get("altIndex").map(|x| x.num() as usize).unwrap_or(0) % c.pool.len().max(1)].clone() };
+                    (f.to_string(), v)
+                });
+                let c07 = alt.is_some();
                 return (Some(found(
-                    encode_eval(c, &tuple),
-                    format!("[{} {}] {} with data {}: {} observation {} = {}", prop_of(c), c.family, clip(&c.src), g("env"), g("phase"), g("sel"), clip(&g("got"))),
-                    format!("{} ({})", clip(&g("want")), match prop_of(c) { "C05" => "reference resolver: innermost enclosing scope that introduces the name, else data field", "C12" => "reference decoder: the code points the source denotes", _ => "JavaScript value of the fully parenthesised tree" }),
+                    encode_eval_alt(c, &tuple, alt),
+                    format!("[{} {}] {} with data {}: {} observation {} = {}", if c07 { "C07" } else { prop_of(c) }, c.family, clip(&c.src), g("env"), g("phase"), g("sel"), clip(&g("got"))),
+                    format!("{} ({})", clip(&g("want")), if c07 { "value of a fresh evaluation on the changed data: an offered binding-map updater must bring the node there" } else { match prop_of(c) { "C05" => "reference resolver: innermost enclosing scope that introduces the name, else data field", "C12" => "reference decoder: the code points the source denotes", _ => "JavaScript value of the fully parenthesised tree" } }),
                 )), n);
             }
             (None, n)
